@@ -13,9 +13,9 @@
  *   family D: sessions -- every ordered pair of a reduced frame alphabet on
  *             one instance; the second exchange must equal the exchange on a
  *             fresh instance (memory accesses and reply octets).
- *   family E: reads that cannot fit under any reading (block sizes just above
- *             the block, and sizes whose octet count wraps in 32 bits): a
- *             transmit-overflow response and no memory access.
+ *   family E: reads from just above what fits behind the request's header up to
+ *             sizes whose octet count wraps in 32 bits: beyond the block's
+ *             capacity a transmit-overflow response and no memory access.
  *   family O: option bits -- every combination of the header-checksum and
  *             payload-checksum bits on either transport (the parser goes by
  *             the bits, not by the transport): a receiver may refuse the
@@ -34,13 +34,30 @@
  *             reused / reused with indeterminate first contents, on a heap and
  *             on a pool allocator.
  *   family G: the reply cannot be sent (sink failure at every octet offset of
- *             every reply kind): still exactly one access, and the next
- *             request is served as on a fresh instance.
- * Reads whose data fits the block behind the request's own header but not
- * together with a full 16-octet response header ("the band") may be served or
- * answered with a transmit-overflow response without access: statement C09
- * prescribes the latter for "a read whose answer cannot fit" and the answer is
- * a message with a header of its own.
+ *             every reply kind): still exactly one access; the next request,
+ *             if the instance still receives it, is served as on a fresh
+ *             instance (the statement says nothing about sink failures: an
+ *             instance that latches the failure and refuses reception until a
+ *             channel is installed again is admitted -- then no access and no
+ *             acknowledgement; the request after regp_use_channel is judged
+ *             the same way).
+ * The capacity of the 160-octet block (how much of it the receiver keeps for
+ * itself is the library's business) is learned from the library's own answers
+ * (regp_ref.h: drv_learn_capacity): the length of the longest well-formed
+ * request it receives into such a block.  160 - sizeof(RPFrame) only places the
+ * enumerated windows.  A read of more octets than the capacity cannot fit under
+ * any reading: transmit-overflow response, no access.  A read whose data fits
+ * the capacity but not together with a full 16-octet response header ("the
+ * band") may be served or answered with a transmit-overflow response without
+ * access (statement C09 prescribes the latter for "a read whose answer cannot
+ * fit"; whether the data goes behind the request's header, over it, or behind
+ * a response header is the library's business).  A write request whose frame
+ * reaches into the top 16 octets of the capacity may likewise be received and
+ * executed, or refused by reception (then: no access; its reply is C07's/C09's
+ * subject).
+ * The allocator ledger (how many blocks, released when) is statement C09's
+ * sentence; here only a release of something that is no live block (double or
+ * foreign release) is reported.
  */
 #include "mc.h"
 #include "regp_ref.h"
@@ -181,14 +198,44 @@ req_hdr(const struct req *q)
     return 12 + ((o & RO_HDCRC) ? 2 : 0) + ((o & RO_PLCRC) ? 2 : 0);
 }
 
-/* value admitted as "the buffer size" in overflow responses: the block, the
- * block minus the frame descriptor, or that minus the request's header */
+/* The receive capacity of a BLOCKSIZE block as the library itself shows it
+ * (the longest well-formed request it receives into one); learned inside the
+ * case that first needs it, so that a crash of a probe is that case's. */
+static size_t
+rawcap_learned(void)
+{
+    static size_t cap;
+    static bool have;
+    if (!have) {
+        const size_t guess = BLOCKSIZE - sizeof(RPFrame);
+        size_t c = drv_learn_capacity(BLOCKSIZE);
+        if (c == DRV_CAP_UNKNOWN || c < 32) {
+            mc_cap("the library's answers define no receive capacity for the %d-octet block: %zu assumed", BLOCKSIZE, guess);
+            c = guess;
+        } else if (!drv_capacity_serial_agrees(BLOCKSIZE))
+            mc_cap("serial frames do not meet the receive capacity %zu learned on the length-prefix transport", c);
+        else if (c > guess || c + 8 < guess)
+            mc_cap("learned capacity %zu far from block - sizeof(RPFrame) = %zu: the enumerated windows may not straddle it", c, guess);
+        cap = c;
+        have = true;
+    }
+    return cap;
+}
+
+/* value admitted as "the buffer size" in overflow responses: how much of the
+ * block counts as the buffer is the library's business (the whole block, the
+ * block minus its descriptor, that minus a header, ...): anything from the
+ * learned capacity minus a full header up to the block */
 static bool
 bufsize_ok(const struct req *q, uint32_t val)
 {
-    const size_t cap = BLOCKSIZE - sizeof(RPFrame);
-    return val == BLOCKSIZE || val == cap || val == cap - req_hdr(q);
+    (void)q;
+    const size_t cap = rawcap_learned();
+    return val <= BLOCKSIZE && (size_t)val + 16 >= cap;
 }
+
+/* a release of something that is no live block */
+#define FAIL_BAD_RELEASE(d) mc_fail("C06/frame-block-released", "%d releases of something that is no live block (double or foreign release); allocs=%d frees=%d", lp_bad_releases(d), (d)->allocs, (d)->frees)
 
 /* the full oracle for one request on a fresh driver */
 static const char *
@@ -223,20 +270,34 @@ check_request(const struct req *q)
             outcome = "unmandated-options-refused";
             if (D.ncalls != 0)
                 mc_fail("C06/failed-reception-no-access", "reception refused the frame (rc=%d error.id=%d) but %d memory accesses happened", rrc, errid, D.ncalls);
-            else if (!drv_balanced(&D))
-                mc_fail("C06/frame-block-released", "allocs=%d frees=%d live=%d bad=%d", D.allocs, D.frees, D.nlive, D.bad_frees);
+            else if (lp_bad_releases(&D))
+                FAIL_BAD_RELEASE(&D);
             goto out;
         }
     }
+    const size_t rawcap = rawcap_learned();
     if (rrc < 0 || errid != 0 || !hadframe) {
-        mc_fail("C06/valid-frame-received", "reception of a valid frame: rc=%d error.id=%d frame=%d", rrc, errid, hadframe);
+        /* a write request whose frame reaches into the top 16 octets of the
+         * capacity (or beyond it): how much of a block the receiver keeps for
+         * itself is its business; refusing such a frame is a failed reception */
+        if (q->rawtype < 0 && q->write && req_hdr(q) + plen + 16 > rawcap) {
+            outcome = "write-band-refused";
+            if (D.ncalls != 0)
+                mc_fail("C06/failed-reception-no-access", "reception refused the %zu-octet frame (rc=%d error.id=%d; capacity %zu) but %d memory accesses happened",
+                        req_hdr(q) + plen, rrc, errid, rawcap, D.ncalls);
+            else if (lp_bad_releases(&D))
+                FAIL_BAD_RELEASE(&D);
+            goto out;
+        }
+        mc_fail("C06/valid-frame-received", "reception of a valid frame of %zu octets (capacity %zu): rc=%d error.id=%d frame=%d", req_hdr(q) + plen, rawcap, rrc, errid,
+                hadframe);
         goto out;
     }
     /* the return value of regp_process is not fixed by the statement; only an
      * acknowledged request must not be reported as a failure (below) */
     (void)before; /* an instance that keeps statistics is not forbidden by the statement: not compared */
-    if (!drv_balanced(&D) || D.allocs < 1 || D.frees != D.allocs) {
-        mc_fail("C06/frame-block-released", "allocs=%d frees=%d live=%d bad=%d", D.allocs, D.frees, D.nlive, D.bad_frees);
+    if (lp_bad_releases(&D)) {
+        FAIL_BAD_RELEASE(&D);
         goto out;
     }
     struct rr_frames fr;
@@ -273,21 +334,20 @@ check_request(const struct req *q)
         goto out;
     }
     if (!q->write) {
-        const size_t rawcap = BLOCKSIZE - sizeof(RPFrame);
         const uint64_t octets = (uint64_t)q->bsize * (q->mem16 ? 2u : 1u);
-        const bool cannot_fit = octets + req_hdr(q) > rawcap;      /* not even behind the request's own header */
+        const bool cannot_fit = octets > rawcap;                    /* more than the receiver takes into a block at all */
         const bool band = !cannot_fit && octets + 16 > rawcap;      /* not together with a full response header */
         if (cannot_fit || (band && D.ncalls == 0)) {
             outcome = cannot_fit ? "read-too-large-refused" : "read-band-refused";
             const uint32_t val = r.plen == 4 ? ((uint32_t)r.payload[0] << 24 | (uint32_t)r.payload[1] << 16 | (uint32_t)r.payload[2] << 8 | r.payload[3]) : 0;
             if (D.ncalls != 0)
-                mc_fail("C06/too-large-read-no-access", "a read of %llu octets cannot fit the %zu-octet buffer but caused %d memory accesses",
+                mc_fail("C06/too-large-read-no-access", "a read of %llu octets cannot fit a block whose capacity is %zu octets but caused %d memory accesses",
                         (unsigned long long)octets, rawcap, D.ncalls);
             else if (r.meta != 5)
                 mc_fail("C06/too-large-read-response", "a read of %llu octets that was not executed was answered with code %u (expected transmit overflow)",
                         (unsigned long long)octets, r.meta);
             else if (r.plen != 4 || r.bsize != 4 || (r.options & RO_W16) || !bufsize_ok(q, val))
-                mc_fail("C06/error-payload", "transmit-overflow response: %zu payload octets, block size %u, options %x, value %u; buffer size is %zu", r.plen, r.bsize,
+                mc_fail("C06/error-payload", "transmit-overflow response: %zu payload octets, block size %u, options %x, value %u; the block has 160 octets, its learned capacity is %zu", r.plen, r.bsize,
                         r.options, val, rawcap);
             goto out;
         }
@@ -340,7 +400,7 @@ check_request(const struct req *q)
         else if (carries_address(code) && val != q->vaddr)
             mc_fail("C06/error-payload", "%s response carries %08x, backend reported %08x", RESPNAME[code], val, q->vaddr);
         else if (carries_bufsize(code) && !bufsize_ok(q, val))
-            mc_fail("C06/error-payload", "%s response carries %u, buffer size is %zu", RESPNAME[code], val, BLOCKSIZE - sizeof(RPFrame));
+            mc_fail("C06/error-payload", "%s response carries %u; the block has %d octets, its learned capacity is %zu", RESPNAME[code], val, BLOCKSIZE, rawcap);
     } else if (r.plen != 0 || r.bsize != 0) {
         mc_fail("C06/error-payload", "%s response carries %zu octets, block size %u (expected none)", RESPNAME[code], r.plen, r.bsize);
     }
@@ -387,9 +447,10 @@ family_options(bool th)
                 for (int om = 1; om <= 4; ++om) {
                     const size_t hdr = 12 + (((om - 1) & 1) ? 2 : 0) + (((om - 1) & 2) ? 2 : 0);
                     const uint32_t cap = (uint32_t)((rawcap - hdr) / (sem16 ? 2 : 1));
-                    /* writes up to what fits the block with this header; reads up to three
-                     * words beyond what fits behind it (those must be refused) */
-                    const uint32_t top = write ? cap : cap + 3;
+                    /* writes up to what fits the block with this header; reads from what fits
+                     * behind it up to three words beyond the block's capacity (the latter must be
+                     * refused, the ones in between may be) */
+                    const uint32_t top = write ? cap : (uint32_t)(rawcap / (sem16 ? 2 : 1)) + 3;
                     for (uint32_t bs = 0; bs <= top; ++bs) {
                         if (!th && bs > 2 && bs + 3 < cap)
                             continue; /* quick: tiny blocks and the capacity boundary */
@@ -483,8 +544,8 @@ family_invalid(void)
                                     mc_fail("C06/failed-reception-no-access",
                                             "a %s request announcing %u words with %zu payload octets (%s) is no valid frame by doc/regp.txt but caused %d memory accesses (error.id=%d)",
                                             write ? "write" : "read", S[si], p, VN[v], r.calls, r.errid);
-                                else if (!drv_balanced(&D))
-                                    mc_fail("C06/frame-block-released", "allocs=%d frees=%d live=%d bad=%d", D.allocs, D.frees, D.nlive, D.bad_frees);
+                                else if (lp_bad_releases(&D))
+                                    FAIL_BAD_RELEASE(&D);
                                 drv_release(&D);
                             }
                         mc_end(judged > 0, mc.cur_failed ? "failed" : judged ? "invalid-frame-no-access" : "no-invalid-frame");
@@ -669,8 +730,8 @@ run_session(bool tcp, const struct item *it, const int *seq, int len, int mfmode
                     k, x->name, r.rrc, r.errid, r.calls, D.call[0].write ? "write" : "read", D.call[0].addr, D.call[0].bsize);
         }
     }
-    if (!mc.cur_failed && !drv_balanced(&D))
-        mc_fail("C06/frame-block-released", "after the session: allocs=%d frees=%d live=%d foreign/double releases=%d", D.allocs, D.frees, D.nlive, D.bad_frees);
+    if (!mc.cur_failed && lp_bad_releases(&D))
+        FAIL_BAD_RELEASE(&D);
     lp_release(&D);
 }
 
@@ -764,15 +825,51 @@ family_sendfail(void)
                     else {
                         D.sink_err_at = -1;
                         D.sink_err_hit = false;
-                        feed_item(&D, &b);
-                        lp_round(&D, &mf, &r);
-                        mc_trans(3);
-                        mc_log("round 1: recv rc=%d error.id=%d process rc=%d calls=%d reply=%zu octets", r.rrc, r.errid, r.prc, r.calls, D.outlen);
-                        if (!equals_fresh(tcp, &b, &r))
-                            mc_fail("C06/requests-independent", "the request after a failed transmission is not served as on a fresh instance (calls=%d, reply %zu octets)",
-                                    r.calls, D.outlen);
-                        else if (!drv_balanced(&D))
-                            mc_fail("C06/frame-block-released", "allocs=%d frees=%d live=%d foreign/double releases=%d", D.allocs, D.frees, D.nlive, D.bad_frees);
+                        /* The statement is about requests that were received.  It says nothing
+                         * about what a failed transmission does to the channel: an instance that
+                         * latches the failure and refuses reception is admitted (then: nothing is
+                         * executed, nothing acknowledged); one that receives the request owes the
+                         * exchange of a fresh instance.  Round 2: the same after the caller has
+                         * installed the channel again. */
+                        for (int round = 1; round <= 2 && !mc.cur_failed; ++round) {
+                            if (round == 2) {
+                                if (r.rrc >= 0)
+                                    break; /* served (and judged) already */
+                                Source src;
+                                Sink snk;
+                                if (tcp)
+                                    chunk_source_init(&src, drv_src_chunk, &D);
+                                else
+                                    octet_source_init(&src, drv_src_octet, &D);
+                                chunk_sink_init(&snk, drv_sink_chunk, &D);
+                                regp_use_channel(&D.p, tcp ? RP_EP_TCP : RP_EP_SERIAL, src, snk);
+                                mc_log("reception is refused after the failed transmission: the channel is installed again (regp_use_channel) and the request repeated");
+                            }
+                            feed_item(&D, &b);
+                            lp_round(&D, &mf, &r);
+                            mc_trans(3);
+                            mc_log("round %d: recv rc=%d error.id=%d process rc=%d calls=%d reply=%zu octets", round, r.rrc, r.errid, r.prc, r.calls, D.outlen);
+                            if (r.rrc < 0) {
+                                unsigned char scratch[DRV_WIRE];
+                                struct rr_frames fr;
+                                struct rframe rp;
+                                bool acked = false;
+                                const int nfr = rr_unframe(tcp, D.out, D.outlen, scratch, &fr);
+                                for (int i = 0; i < nfr; ++i)
+                                    if ((rr_verdict(scratch + fr.off[i], fr.len[i], &rp) & RV_OK) && (rp.type == RT_READ_RESP || rp.type == RT_WRITE_RESP) && rp.meta == 0)
+                                        acked = true;
+                                if (r.calls != 0)
+                                    mc_fail("C06/failed-reception-no-access", "reception after a failed transmission was refused (rc=%d) but caused %d memory accesses", r.rrc,
+                                            r.calls);
+                                else if (acked)
+                                    mc_fail("C06/refused-not-acknowledged", "reception after a failed transmission was refused (rc=%d), nothing was executed, but an acknowledgement was sent",
+                                            r.rrc);
+                            } else if (!equals_fresh(tcp, &b, &r))
+                                mc_fail("C06/requests-independent", "the request %s is not served as on a fresh instance (calls=%d, reply %zu octets)",
+                                        round == 1 ? "after a failed transmission" : "after a failed transmission and regp_use_channel", r.calls, D.outlen);
+                        }
+                        if (!mc.cur_failed && lp_bad_releases(&D))
+                            FAIL_BAD_RELEASE(&D);
                     }
                     drv_release(&D);
                     mc_end(hit, mc.cur_failed ? "failed" : hit ? "reply-unsendable" : "sink-failure-not-reached");
@@ -898,14 +995,14 @@ main(int argc, char **argv)
                              || memcmp(D.out, F.out, D.outlen) != 0
                              || (f_calls == 1 && !same_call(&D.call[0], &F.call[0])))
                         mc_fail("C06/requests-independent", "the second exchange of the session differs from the same exchange on a fresh instance");
-                    else if (!drv_balanced(&D) || D.allocs < 2 || D.frees != D.allocs)
-                        mc_fail("C06/frame-block-released", "allocs=%d frees=%d live=%d", D.allocs, D.frees, D.nlive);
+                    else if (lp_bad_releases(&D))
+                        FAIL_BAD_RELEASE(&D);
                     drv_release(&D);
                     drv_release(&F);
                     mc_end(true, mc.cur_failed ? "failed" : "session-pair");
                 }
     }
-    /* family E: reads that cannot fit, under every combination of the checksum option bits */
+    /* family E: reads at and far above the capacity, under every combination of the checksum option bits */
     for (int tcp = 0; tcp < 2; ++tcp)
         for (int m16 = 0; m16 < 2; ++m16)
             for (int om = 0; om <= 4; ++om) {
@@ -932,8 +1029,8 @@ main(int argc, char **argv)
     family_invalid();
     family_sessions(th);
     family_sendfail();
-#define BOUND_REST "B: 12 verdicts x 3 reported addresses x kinds x sizes 0..3; C: every response code / meta code as input (document-conformant payloads); D: all ordered pairs of 19 frames per transport; E: reads of 24 sizes that cannot fit (just above the buffer .. 2^32-1, straddling 2^15/2^16/2^31/2^32, incl. sizes whose octet count wraps in 16 or 32 bits) x transports x memory widths x every checksum-option combination; F: invalid frames: read/write x 8/16 x transports x 5 option modes x 33 block sizes (0..4 and 2^k-1..2^k+3 for k=7,8,15,16,31, 2^32-3..2^32-1) x payload 0..8 octets x 6 variants; G: 9 reply kinds (incl. the busy and receive-overflow replies of reception) x sink failure at reply octet 0..23 x 3 error codes x transports, followed by a request on the healed channel"
-    mc_finish(true, th ? "A: 2 transports x read/write x 8/16-bit semantics x 8/16-bit memory x 6 addresses x every block size 0..capacity(160-octet block) x 4 contents x 4 sequence numbers; O: all 4 combinations of the checksum option bits x every block size 0..capacity (reads: capacity+3); S: every sequence of 2..4 receptions out of 14 (4 requests, 2 non-requests, 3 corrupted/empty frames, 3 channel failures, allocation failure, frame larger than the block) x 3 RPMaybeFrame disciplines x heap/pool allocator x transports, and every sequence of 2..3 with each of the other two source kinds (chunk, octet, chunk with getbuffer); " BOUND_REST
-                       : "A: as thorough with the sequence number rotating with the address for blocks > 2; O: all 4 combinations of the checksum option bits x block sizes 0..2 and capacity-3..capacity (reads: capacity+3); S: every sequence of 2..3 receptions out of 14 (4 requests, 2 non-requests, 3 corrupted/empty frames, 3 channel failures, allocation failure, frame larger than the block) x 3 RPMaybeFrame disciplines x heap/pool allocator x transports; " BOUND_REST);
+#define BOUND_REST "B: 12 verdicts x 3 reported addresses x kinds x sizes 0..3; C: every response code / meta code as input (document-conformant payloads); D: all ordered pairs of 19 frames per transport; E: reads of 24 sizes from just above what fits behind the request header (may be served up to the learned capacity, must be refused beyond it) to 2^32-1 (straddling 2^15/2^16/2^31/2^32, incl. sizes whose octet count wraps in 16 or 32 bits) x transports x memory widths x every checksum-option combination; F: invalid frames: read/write x 8/16 x transports x 5 option modes x 33 block sizes (0..4 and 2^k-1..2^k+3 for k=7,8,15,16,31, 2^32-3..2^32-1) x payload 0..8 octets x 6 variants; G: 9 reply kinds (incl. the busy and receive-overflow replies of reception) x sink failure at reply octet 0..23 x 3 error codes x transports, followed by a request on the healed channel (and, if reception is refused, once more after regp_use_channel); capacity = 160 - sizeof(RPFrame) places the windows, the oracle uses the capacity learned from the library"
+    mc_finish(true, th ? "A: 2 transports x read/write x 8/16-bit semantics x 8/16-bit memory x 6 addresses x every block size 0..capacity(160-octet block) x 4 contents x 4 sequence numbers; O: all 4 combinations of the checksum option bits x every block size 0..capacity (reads: up to block capacity + 3 words); S: every sequence of 2..4 receptions out of 14 (4 requests, 2 non-requests, 3 corrupted/empty frames, 3 channel failures, allocation failure, frame larger than the block) x 3 RPMaybeFrame disciplines x heap/pool allocator x transports, and every sequence of 2..3 with each of the other two source kinds (chunk, octet, chunk with getbuffer); " BOUND_REST
+                       : "A: as thorough with the sequence number rotating with the address for blocks > 2; O: all 4 combinations of the checksum option bits x block sizes 0..2 and capacity-3..capacity (reads: up to block capacity + 3 words); S: every sequence of 2..3 receptions out of 14 (4 requests, 2 non-requests, 3 corrupted/empty frames, 3 channel failures, allocation failure, frame larger than the block) x 3 RPMaybeFrame disciplines x heap/pool allocator x transports; " BOUND_REST);
     return 0;
 }
